@@ -19,7 +19,7 @@ def edge_oracle(tree, history_terms):
     return fails
 def run(ctx):
     quick = ctx['tier'] == 'quick'
-    n, max_ops = (60, 5) if quick else (240, 10)
+    n, max_ops = (60 * ctx.get('boost', 1), 5) if quick else (240, 10)
     rc, out = vlib.harness_run(['viewer', ctx['seed'], n, max_ops], timeout=900)
     if rc != 0: raise RuntimeError('harness viewer failed: ' + out[-2000:])
     terms = []; trees = []; oracle_lines = []; pending = []
